@@ -17,7 +17,7 @@ TECHNIQUE = 'matrix enumeration with a dtype/length monitor on every array retur
 RULE = ('cells = raw type x scale kind x mode x raw_timestamps x endian x (non-empty | zero-length); a cell is non-trivial when at '
         'least one read succeeded; distinct = the cell tuple')
 ASSUMPTIONS = ['byte order is not part of dtype equality', 'raw timestamp dtypes are compared as sets of (field, kind, size)']
-REQUIRED = ['memmap_files', 'reads_ok', 'dtype_checked', 'empty_results_checked', 'len_checked']
+REQUIRED = ['long_file_channels', 'memmap_files', 'reads_ok', 'dtype_checked', 'empty_results_checked', 'len_checked']
 EXHAUSTIVE = {'quick': False, 'thorough': False}
 
 KINDS = ['none', 'Linear', 'Polynomial', 'Table', 'Add', 'Subtract', 'RTD', 'Thermistor', 'Thermocouple0', 'Thermocouple1',
@@ -81,6 +81,8 @@ def gen_cases(tier, seed):
                     yield {'k': 'cell', 't': t, 'scale': kind, 'e': e, 's': seed, 'il': True}     # interleaved layout
     for i in range(500000 if tier == 'thorough' else 1500):
         yield {'k': 'graph', 's': seed * 1000003 + i}
+    for i in range(2000 if tier == 'thorough' else 24):
+        yield {'k': 'long', 's': seed * 1000003 + i}
 
 
 def small_values(p, t, n):
@@ -143,8 +145,49 @@ def judge(ctx, ch, what, got, cell, expect_len=None):
             ctx.violation('len/%s' % what, {'cell': cell, 'len(channel)': expect_len, 'returned': len(got)})
 
 
+def long_case(case, ctx):
+    """More than 100 segments, channels whose per-segment counts agree for a long prefix: len(channel) against every full read."""
+    from nptdms import TdmsFile
+    from checks.c05 import long_file
+    rng = random.Random('c14l/%d' % case['s'])
+    segs = long_file(rng)
+    blob = M.encode_file(segs)[0]
+    exp = M.Expected(segs)
+    for mode in ('lazy', 'eager'):
+        tf = (TdmsFile.open if mode == 'lazy' else TdmsFile.read)(io.BytesIO(blob))
+        chans = [c for g in tf.groups() for c in g.channels()]
+        rng.shuffle(chans)
+        for ch in chans:
+            ctx.evaluation()
+            cell = ('long', 'none', mode, False, '<', ch.name)
+            n = len(ch)
+            ctx.count('long_file_channels')
+            if n != exp.length(ch.path):
+                ctx.violation('len/differs-from-file/long', {'cell': cell, 'len(channel)': n, 'values_in_file': exp.length(ch.path), 'segments': len(segs)})
+            for what, fn in (('[:]', lambda: ch[:]), ('read_data()', lambda: ch.read_data()), ('iter', lambda: np.array(list(ch)))):
+                try:
+                    got = fn()
+                except Exception:
+                    ctx.count('reads_raising')
+                    continue
+                judge(ctx, ch, what, got, cell, n)
+            if mode == 'lazy':
+                try:
+                    total = sum(len(c_[:]) for c_ in ch.data_chunks())
+                    ctx.count('len_checked')
+                    if total != n:
+                        ctx.violation('len/chunk-stream', {'cell': cell, 'sum': total, 'len': n})
+                except Exception:
+                    ctx.count('reads_raising')
+            ctx.distinct(cell + (len(segs),))
+        if mode == 'lazy':
+            tf.close()
+
+
 def run_case(case, ctx):
     from nptdms import TdmsFile
+    if case['k'] == 'long':
+        return long_case(case, ctx)
     segs, rng = build(case)
     blob, _, _ = M.encode_file(segs)
     for raw_ts in ((False, True) if (case['k'] == 'cell' and case['t'] == 'ts') else (False,)):
